@@ -165,7 +165,9 @@ static Tape Shrink(const Tape& orig, const Profile& prof, const std::string& pro
   return best;
 }
 
+namespace sim { extern bool g_live_trace; }
 int main(int argc, char** argv) {
+  sim::g_live_trace = getenv("SIM_LIVE") != nullptr;
   GlobalInit();
   if (argc < 2) { fprintf(stderr, "usage: simninja run|replay|shrink|logdrv ...\n"); return 2; }
   std::string cmd = argv[1];
